@@ -262,8 +262,14 @@ func (mw *msgWriter) startMP(mimeType MIMEType, boundary string) string {
 		mw.err = multiPartWriter.SetBoundary(boundary)
 	}
 
-	contentType := fmt.Sprintf("multipart/%s;\r\n boundary=%s", mimeType,
-		multiPartWriter.Boundary())
+	// A boundary may hold characters that are not allowed in an unquoted parameter value (RFC 2045,
+	// section 5.1: tspecials and space). Such a boundary has to be written as quoted-string. The
+	// boundary characters of RFC 2046 include neither the double quote nor the backslash.
+	boundaryParam := multiPartWriter.Boundary()
+	if strings.ContainsAny(boundaryParam, "()<>@,;:\\\"/[]?= ") {
+		boundaryParam = `"` + boundaryParam + `"`
+	}
+	contentType := fmt.Sprintf("multipart/%s;\r\n boundary=%s", mimeType, boundaryParam)
 	mw.multiPartWriter[mw.depth] = multiPartWriter
 
 	if mw.depth == 0 {
